@@ -56,7 +56,7 @@ pub enum Op {
     Successor,
     HexRoundTrip,
     ConvRoundTrip,
-    /// Lut -> Lut{n2}::try_from (any n2; Err expected unless n2 is the table's size); LutN -> Lut
+    /// (LutN -> Lut ->) Lut{n2}::try_from, any n2: Err unless n2 is the table's size
     ConvertTo(usize),
     CofactorRoundTrip(usize),
     DoubleFlip(usize),
@@ -305,10 +305,19 @@ fn exec_inner(fam: Fam, n: usize, slots: &[T], st: &Step) -> (Outcome, Option<T>
             },
             Err(()) => (Outcome::ParseErr, None),
         },
-        Op::ConvertTo(n2) => match a.convert(*n2) {
-            Ok(t) => tab(t),
-            Err(()) => (Outcome::ParseErr, None),
-        },
+        Op::ConvertTo(n2) => {
+            // both families end in LutK::try_from(Lut): a LutN first goes to Lut (infallible)
+            let src = if a.fam() == Fam::Static { a.convert(0) } else { Ok(a.dup()) };
+            match src.and_then(|l| l.convert(*n2)) {
+                // same size: back to the pool's family so that both families store the result
+                Ok(t) if t.n() == n && t.fam() != fam => match t.convert(n) {
+                    Ok(back) => tab(back),
+                    Err(()) => (Outcome::ParseErr, None),
+                },
+                Ok(t) => tab(t),
+                Err(()) => (Outcome::ParseErr, None),
+            }
+        }
         Op::CofactorRoundTrip(i) => {
             let (c0, c1) = a.cofactors(*i);
             tab(c0.from_cofactors(c1.as_ref(), *i))
